@@ -103,6 +103,36 @@ UNITS = [
     unit('conv_call', 'conv_call'),
     unit('hlp_shift', 'hlp_shift', uses=('fac_call', 'fc_subscribe')),
 ]
+# ---- MOVE-ONLY payload (drivers/c09_mo_item.h): make_promise<mo_item> / its helper's resume lambda, and a converter mo_item -> mo_item
+CBMQ = 'cocls::future_with_cb<mo_item, c18_cbm>'; CBMR = rx(CBMQ)
+CONVBMR = r'cocls::future_conv_promise_base<mo_item, mo_item>'
+N.update(
+    user_cbm=r'^c18_cbm::operator\(\)\(cocls::future<mo_item>&\)$',
+    cbm_ctor_fn='^' + CBMR + r'::future_with_cb\(c18_cbm&&\)$', cbm_dtors='^' + CBMR + r'::~future_with_cb\(\)$',
+    cbm_invoke=r'^cocls::suspend_point<void> ' + CBMR + r'::future_with_cb\(c18_cbm&&\)::\{lambda\(cocls::awaiter\*, auto:1\)#1\}::__invoke<void\*>\(cocls::awaiter\*, void\*\)$',
+    make_promise_mo=r'^cocls::promise<mo_item> cocls::make_promise<mo_item, c18_cbm>\(c18_cbm&&\)$',
+    ctxm_conv=r'^c18_ctxm::conv\(mo_item&\)$',
+    pm_call_val=r'^cocls::suspend_point<bool> cocls::promise<mo_item>::operator\(\)<mo_item>\(mo_item&&\)$',
+    pm_call_exc=r'^cocls::suspend_point<bool> cocls::promise<mo_item>::operator\(\)<std::__exception_ptr::exception_ptr>\(std::__exception_ptr::exception_ptr&&\)$',
+    pm_dtor=r'^cocls::promise<mo_item>::~promise\(\)$',
+    conv_mm_invoke=r'^cocls::future_conv<&c18_ctxm::conv>::future_conv\(c18_ctxm\*\)' + LAM,
+    conv_mm_ctor=r'^cocls::future_conv<&c18_ctxm::conv>::future_conv\(c18_ctxm\*\)$',
+    mo_move=r'^mo_item::mo_item\(mo_item&&\)$', mo_int=r'^mo_item::mo_item\(int\)$', mo_dtor=r'^mo_item::~mo_item\(\)$',
+)
+ABSTRACT = ABSTRACT + ('user_cbm', 'ctxm_conv', 'pm_call_val', 'pm_call_exc', 'pm_dtor')
+MO_TYPES = {'MO': 'mo_item', 'FUTM': 'cocls::future<mo_item>', 'PROMM': 'cocls::promise<mo_item>', 'CBM': CBMQ, 'CBMT': 'c18_cbm', 'CTXM': 'c18_ctxm', 'CONVBM': 'cocls::future_conv_promise_base<mo_item, mo_item>'}
+MO_GLOBALS = {'MO_LIVE': '_ZN7mo_item4liveE', 'MO_DEAD': '_ZN7mo_item11dead_valuedE', 'MO_DEAD_TAG': '_ZN7mo_item13last_dead_tagE'}
+MO_SPEC = ['C18/c18_spec.h', 'C18/h_c18.c', 'C18/c18_mo_spec.h']
+MO_ROOTS = ['mo_move', 'mo_int', 'mo_dtor']
+UNITS += [
+    unit('cbm_invoke', 'cbm_invoke', uses=('user_cbm', 'cbm_ctor_fn'), extra_defines=['CV_HAS_cbm_invoke_u 1'], extra_roots=['cbm_ctor_fn', 'cbm_dtors'] + MO_ROOTS, extra_types=MO_TYPES, spec=MO_SPEC,
+         extra_globals=dict(MO_GLOBALS, VT_CBM='_ZTVN5cocls14future_with_cbI7mo_item7c18_cbmEE')),
+    unit('make_promise_mo', 'make_promise_mo', uses=('user_cbm', 'cbm_invoke'), extra_types=MO_TYPES, extra_globals=MO_GLOBALS, spec=MO_SPEC, extra_roots=MO_ROOTS),
+    unit('conv_mm_invoke', 'conv_mm_invoke', uses=('ctxm_conv', 'pm_call_val', 'pm_call_exc', 'pm_dtor', 'fc_subscribe'), extra_defines=['CV_HAS_conv_mm_invoke_u 1'], extra_types=MO_TYPES, extra_globals=MO_GLOBALS,
+         spec=MO_SPEC, extra_roots=MO_ROOTS),
+    unit('conv_mm_ctor', 'conv_mm_ctor', uses=('conv_mm_invoke', 'ctxm_conv', 'pm_call_val', 'pm_call_exc', 'pm_dtor', 'fc_subscribe'), ptypes={'CONVMM': N['conv_mm_ctor'] + '#0'}, extra_types=MO_TYPES, extra_globals=MO_GLOBALS,
+         spec=MO_SPEC, extra_roots=MO_ROOTS),
+]
 CHT = 'std::__n4861::coroutine_handle<void>'
 AP = {'ap_aw_load': r'^std::atomic<cocls::awaiter\*>::load\(std::memory_order\) const$', 'ap_aw_xchg': r'^std::atomic<cocls::awaiter\*>::exchange\(',
       'ap_aw_cas': r'^std::atomic<cocls::awaiter\*>::compare_exchange_weak\(cocls::awaiter\*&, cocls::awaiter\*, std::memory_order, std::memory_order\)$',
@@ -162,6 +192,22 @@ UNITS += [compose('discard', r'^c18_drive_discard$', 'composition: discard() of 
 UNITS += [compose('cfa', r'^c18_drive_cfa$', 'composition: call_fn_future_awaiter << real future<int>', before=b) for b in (1, 0)]
 UNITS += [compose('conv', r'^c18_drive_conv$', 'composition: future_conv<member fn> << real future<int>, converter returns or throws (symbolic)', before=b, types=D_TYPES_L,
                   extra_globals={'G_LREC': 'g_lrec', 'G_CONV_CALLS': 'g_conv_calls'}) for b in (1, 0)]
+# ---- bounded drive: MOVE-ONLY payload through the really lowered callback_await_coro (c18_drive_mo)
+FRAME_MO = 'CV_FRAME_KINDS X(5, S__ZN5cocls8_details19callback_await_coroINS_15default_storageENS_6futureI7mo_itemEE16c18_record_mo_fnJR9c18_op_moEEENS_14with_allocatorIT_NS_5asyncIvEEEERSA_T1_DpT2__Frame)'
+AP_MO = dict(AP, ap_fu_load=r'^std::atomic<cocls::future<mo_item>\*>::load\(std::memory_order\) const$', ap_fu_xchg=r'^std::atomic<cocls::future<mo_item>\*>::exchange\(',
+             ap_fu_assign=r'^std::atomic<cocls::future<mo_item>\*>::operator=\(cocls::future<mo_item>\*\)$')
+def drive_mo(before, take):
+    what = ('callback_await (default_storage) on a future<mo_item> (move-only payload), %s; the completion %s; symbolic outcome (value / exception / promise dropped), symbolic tag and error code; '
+            'single thread, no spurious CAS failure' % ('resolved before registration' if before else 'resolved after registration (same thread)', 'moves the value out' if take else 'only reads the value'))
+    return dict(name='drive_cbawait_mo_%s_%s' % ('before' if before else 'after', 'take' if take else 'read'), driver='c18_drive.cpp', roots=[r'^c18_drive_mo$'], names={}, names_opt=dict(AP_MO),
+                types=dict(D_TYPES, FUT='cocls::future<mo_item>', ATOM_FU='std::atomic<cocls::future<mo_item> *>'),
+                globals=dict(D_GLOBALS, G_MREC='g_mrec', MO_LIVE='_ZN7mo_item4liveE', MO_DEAD='_ZN7mo_item11dead_valuedE', MO_DEAD_TAG='_ZN7mo_item13last_dead_tagE'),
+                boundary=[r'^std::deque<std::__n4861::coroutine_handle<void>', r'^std::atomic<bool>::wait\(', r'^std::atomic<bool>::notify'] + list(AP_MO.values()),
+                lib=['rt_core.c', 'rt_atomic_seq.c', 'model_dq_ring.c', 'model_heap_frames.c'], spec=['C18/h_drive.c'], harness='h_drive',
+                defines=['CV_NO_HEAP_PRIMS 1', 'CV_NO_SPURIOUS_CAS 1', FRAME_MO, 'DRIVE_cbawait_mo 1', 'DRIVE_BEFORE %d' % before, 'DRIVE_TAKE %d' % take],
+                unwind=6, object_bits=11, kind='bounded', timeout=600, bounded=what, under_contract=[],
+                replay=dict(src='c18_mo_drive.cpp', mode='C18MO', flags=['-I', '/verif/drivers', '-g', '-fsanitize=address,undefined']))
+UNITS += [drive_mo(b, t) for t in (1, 0) for b in (1, 0)]
 META = dict(
     level='proof',
     level_text=('The non-coroutine adapters are verified against contracts taken from the property statement: future_with_cb (constructor; its resume lambda, heap and storage variant), make_promise (both overloads), '
@@ -181,7 +227,12 @@ META = dict(
         'either has run the callback exactly once with the outcome and released the block once, or has registered the helper\'s awaiter with that future - the completion is never lost. '
         'callback_await (a coroutine) is covered by bounded drives of the really lowered callback_await_coro - including a completion that throws while it handles the outcome (still exactly one call; its own failure '
         'is not reported to it as the operation\'s outcome) and an operation whose start throws inside the awaitable\'s constructor (the completion runs once in exception state, or the registering caller sees the '
-        'exception; never neither); further drives run each non-coroutine adapter end to end on the real promise/future code, and discard() with a factory that throws (caller sees the exception, block released).'),
+        'exception; never neither); further drives run each non-coroutine adapter end to end on the real promise/future code, and discard() with a factory that throws (caller sees the exception, block released). '
+        'MOVE-ONLY PAYLOAD (mo_item of drivers/c09_mo_item.h: deleted copy, tag, per-object moved-from count, global live / died-with-value counters; its REAL special members are translated): units cbm_invoke '
+        '(resume lambda of future_with_cb<mo_item>: the completion sees THE value object intact; the value object dies with the helper exactly once - or only its husk if the completion moved the value out, which then carries the tag), '
+        'make_promise_mo, conv_mm_invoke (future_conv with a converter mo_item -> mo_item: the converter is handed the source\'s value object itself, once, intact; the outer future receives an object move-constructed from an '
+        'intact result carrying exactly the result\'s tag; exactly one new live instance, the temporary is gone, nothing that carried a value died, the source keeps its value) and - bounded - drives drive_cbawait_mo_* of the '
+        'really lowered callback_await_coro on a future<mo_item> (callback sees the value object intact, may move it out; afterwards every instance created on the way is destroyed exactly once and exactly one died carrying the value).'),
     level_note=('Trusted: the abstract callee future_common::subscribe and its environment model (its real behaviour under interference = specs/C02; that a subscribed awaiter is resumed exactly once after the '
         'resolution = C01/C02), the outer promise<long> operations as recording stubs in the future_conv lambda units (real behaviour = C01, proved there for promise<int>), user code as recording stubs that do not '
         'throw except where stated (converter; the throwing completion of the drive_cbthrow drives), clang front end, ir2c; DFCC makes vtables nondeterministic, the harness of the resume-lambda units re-establishes the two destructor slots. '
@@ -189,14 +240,15 @@ META = dict(
         'BOUNDED (never counted as discharged): callback_await / callback_await_alloc drives = timing (before / after registration, same thread) x storage (default_storage / counting storage) as units, outcome '
         '(value / exception / dropped promise) and values symbolic; callback_await with a completion that may throw (symbolic) x timing; callback_await / discard with a starting function that throws; composition drives of make_promise, discard, call_fn_future_awaiter, future_conv with symbolic outcome; single thread, std::atomic<T*> read at '
         'member-function level, no spurious CAS failure; timing and storage are concrete per unit because symbolic control makes the lowered state machines fork beyond reach (measured). The drive oracles are '
-        'confirmed natively (g++, ASan/UBSan) by replay/c18_drive.cpp, replay/c18_cb_throw.cpp, replay/c18_start_throws.cpp. Not covered: concurrent resolution of callback_await on another thread beyond the C02 '
+        'confirmed natively (g++, ASan/UBSan) by replay/c18_drive.cpp, replay/c18_cb_throw.cpp, replay/c18_start_throws.cpp, replay/c18_mo_drive.cpp (move-only drives). Not covered: concurrent resolution of callback_await on another thread beyond the C02 '
         'subscription contract, the factory function itself throwing inside operator<< of future_with_cb / call_fn_future_awaiter / future_conv (result_of\'s catch path turns it into an exception outcome; only '
-        'callback_await and discard are driven with a throwing start), future_conv specialisations for void targets / free function with context, value types other than int / long / void source, a throwing '
+        'callback_await and discard are driven with a throwing start), future_conv specialisations for void targets / free function with context, value types other than int / long / void source / the move-only mo_item (discard and call_fn_future_awaiter are not instantiated for mo_item: they never touch the value), a throwing '
         'completion of make_promise / call_fn_future_awaiter (their resume functions are noexcept: std::terminate) - a throwing completion of callback_await does NOT terminate: callback_await_coro catches it '
         '(and, after the value was delivered, must not call the completion again - drives drive_cbthrow_*); an exception thrown by the completion in exception state is swallowed by the detached coroutine\'s '
         'unhandled_exception(); await_result<void>; future_with_cb::operator<< on the storage-allocated variant (same function instance, destructor path covered by cb_invoke_storage).'),
     technique='CBMC code contracts via goto-instrument --dfcc on the C translation of clang IR of future.h / future_conv.h with the subscription as an abstract callee that also plays the concurrent resolver; bounded symbolic execution of the really lowered callback_await_coro and of end-to-end adapter scenarios',
-    trusted_base=['abstract callee future_common::subscribe incl. the concurrent-resolver step, factory of the awaited future, user callbacks / converters / storage, outer promise<long> operations as recording stubs (specs/C18/c18_spec.h)',
+    trusted_base=['move-only units: promise<mo_item>::operator()(mo_item&&) as an abstract callee that move-constructs the outer future\'s value once with the real move constructor; the user callback / converter stubs read, optionally move out (callback) or create (converter, real mo_item(int)) value objects (specs/C18/c18_mo_spec.h)',
+                  'abstract callee future_common::subscribe incl. the concurrent-resolver step, factory of the awaited future, user callbacks / converters / storage, outer promise<long> operations as recording stubs (specs/C18/c18_spec.h)',
                   'sequential atomic primitives for the adapter-local atomics (lib/rt_atomic_seq.c): adapter objects are touched by one thread at a time, ordered by the subscription protocol (C02)',
                   'exception_ptr reference counting stubs (lib/rt_core.c)',
                   'bounded drives only: concrete ring model of std::deque<coroutine_handle<>> (lib/model_dq_ring.c), typed coroutine frames (lib/model_heap_frames.c), std::atomic<T*> at member-function level (specs/C18/h_drive.c)'],
